@@ -71,6 +71,17 @@ CLAIMED = {
    "Seeded search over source graphs x serialisations x target configurations x copy programs; the oracle builds the relation source-object <-> target-object and requires a bijection, equal scalars, array lengths, dictionary key sets, preserved empty containers and nulls, equal decoded stream data, equivalent /Filter and /DecodeParms with nested references translated, and stable results for repeated CopyReference.",
    "References are identified with the object at the end of their reference-to-reference chain; chains that pass through a redirected object are not judged (unspecified); dictionary entries with null values count as absent.",
    "DESIGN.md section 4 C11"),
+
+ "C15": ("exploration",
+   "deterministic simulation of byte delivery and stream splitting: seeded operator sequences / Builder call sequences, bytes delivered to the content scanner through a drawn schedule (short reads, (0,nil), data-with-EOF) or split at operator boundaries over several /Contents streams on a simulated disk",
+   "Seeded search over operator sequences x delivery schedules x split points; the scanner refills with a single Read, so its 512-byte window boundaries follow the delivery schedule, which in production is a Flate reader; the oracle is equality of operator names and operands in order, and for Builder output acceptance by State.ApplyOperator and a balanced end.",
+   "Inline-image data that contains EOL+EI+delimiter is written with the /L key (otherwise inherently ambiguous); operands exclude references and streams; Builder programs come from a small state machine, rejected programs are skipped.",
+   "DESIGN.md section 4 C15"),
+ "C16": ("exploration",
+   "deterministic simulation of interleaved range writers: every open pagetree.Writer is a logical task, a seeded scheduler interleaves append / burst / NewRange / NextPageNumber / Close steps; page tree written to a simulated disk and compared with an ordered-tree model after reopening",
+   "Seeded search over interleavings of nested range writers and attribute patterns; oracles: iterator order, raw tree walk (Count, Parent, fan-out, no node twice), effective MediaBox/CropBox/Rotate/Resources by our own inheritance walk, page-number callbacks fired once with the final position, NumPages/GetPage.",
+   "The callback contract (next page appended directly to that writer, -1 if closed first) is read from the documentation; attribute ties are broken in map order by the library, so only semantics are compared.",
+   "DESIGN.md section 4 C16"),
 }
 
 PENDING = {}
@@ -118,7 +129,7 @@ def main():
     print("claimed:", sorted(CLAIMED), "n/a:", [x["property_id"] for x in na])
 
 PENDING = {p: "not claimed yet: the simulation harness for this property is still under construction (see DESIGN.md section 4); it is applicable and will be claimed once its check is sound on the unchanged tree" for p in
-           ["C15", "C16"]}
+           []}
 
 if __name__ == "__main__":
     main()
